@@ -28,11 +28,22 @@ def prune_state(ctx, r):
     return st, v, trace
 
 
-def one_instance(ctx, r, big=0, prepared=None, legacy=False, only=None):
+def one_instance(ctx, r, big=0, prepared=None, legacy=False, only=None, tail=None):
     # (a legacy-named store is built without plan/compact: the rewriting command under test must be the first one to meet the old name)
     base, v, trace = prepared if prepared else crash.build_state(ctx, r, 8 + r.n(10), big=big, legacy=legacy,
                                                                  **({"weights": {"new_task": 34, "new_epic": 8, "set": 30, "claim_oldest": 6, "sequence": 12, "prune_yes": 2}} if legacy else {}))
     try:
+        if tail:
+            # what an earlier killed writer (or a hand edit) left at the end of the log: a complete last event without its newline, or a torn fragment.
+            # The command under test first repairs that tail; the repair must be as invisible as the rest when the command is killed after it.
+            data = base.log_bytes()
+            if not data.endswith(b"\n"):
+                return
+            frag = b'{"type":"state","ts":"2026-01-01T00:00:00Z","data":{"id":"'
+            with open(base.log_path(), "wb") as f:
+                f.write(data[:-1] if tail == "unterminated" else data + frag)
+            trace = trace + [{"edit": "final newline of the log removed (the last line stays a complete event)"} if tail == "unterminated" else
+                             {"edit": "torn fragment appended to the log, no newline", "bytes": frag.decode()}]
         label, argv, stdin = ("prune--yes(tasks+epics)", ["--json", "--agent", "p", "prune", "--yes"], None) if prepared else crash.multi_event_command(r, v)
         for _ in range(200):
             if prepared or not only or label in only:
@@ -93,6 +104,8 @@ def run(ctx):
     # a store whose log still has the old name: the commands that rewrite the log (and every other) killed before each of their calls
     for i in range(3 if ctx.quick else 40):
         one_instance(ctx, r.fork(), legacy=True, only=(("compact",), ("plan",), None)[i % 3])
+    for i in range(4 if ctx.quick else 40):
+        one_instance(ctx, r.fork(), tail=("unterminated", "torn")[i % 2])
     ctx.cov["rule"] = ("for generated CLI-reachable pre-states × multi-event commands (claim, claim <id>, multi-field set, create-with-state/claim, sequence chain, prune --yes, plan, compact): "
                        "SIGKILL injected with strace before every one of the command's system calls on the store's files; observable state (clock readings aside) must equal "
                        "the state before or the state after (twin run with the same scripted RNG); distinct = (command, kill point, events recorded)")
@@ -103,7 +116,10 @@ def replay(ctx, doc):
     st = cmdrun.Store(ctx.ergo_verif, ctx.go)
     try:
         tr = doc["replay"]["trace"]
+        from .. import histories
         for step in tr[:-1]:
+            if "argv" not in step:
+                histories.apply_edit(st, step); continue
             st.exec(step["argv"], None if step.get("stdin") is None else step["stdin"].encode(), env=step.get("env"))
         last = tr[-1]
         before = crash.timeless(st.graph()["graph"])
